@@ -182,7 +182,8 @@ def check_function(chk, htu, row, cfg, callees, rule='R19.1'):
                              % (p.ret, len(rs), [bswap_width(s) for s in rs], want_n, access))
             for s in rs:
                 inner = s.args[0]
-                loads = mr.raw_loads(inner) + [1 for x in pe.sym_walk(inner) if is_sym(x) and x.op == 'atomic-old']
+                loads = mr.raw_loads(inner) + [1 for x in pe.sym_walk(inner) if is_sym(x) and x.op == 'atomic-old'] + \
+                    [1 for x in pe.sym_walk(inner) if is_sym(x) and x.op == 'bytes' and x.args and mr.mem_location(x.args[0])]   # memcpy out of memory
                 if not loads:
                     probs.append('the reversal in the returned value is not applied to the loaded bytes: %r' % (s,))
         # the module-visible value is the same function of the (reversed) bytes as on a little-endian host: the row's extension
